@@ -1410,6 +1410,7 @@ mod convert {
                     continue;
                 }
                 if self.from_row.end_sequence() {
+                    self.check_address_offset()?;
                     return Ok(Some(ConvertLineRow::EndSequence(self.from_row.address())));
                 }
                 if let Some(address) = self.address.take() {
@@ -1423,7 +1424,21 @@ mod convert {
             Ok(None)
         }
 
+        /// Check that the address offset of the current row can be written.
+        ///
+        /// Address advances are written in units of `minimum_instruction_length`.
+        /// An offset that isn't a multiple of this can only be produced by
+        /// `DW_LNS_fixed_advance_pc`, which is not supported by the writer.
+        fn check_address_offset(&self) -> ConvertResult<()> {
+            let min_len = u64::from(self.program.line_encoding.minimum_instruction_length);
+            if min_len > 1 && !self.from_row.address().is_multiple_of(min_len) {
+                return Err(ConvertError::UnsupportedLineInstruction);
+            }
+            Ok(())
+        }
+
         fn convert_row(&self) -> ConvertResult<LineRow> {
+            self.check_address_offset()?;
             Ok(LineRow {
                 address_offset: self.from_row.address(),
                 op_index: self.from_row.op_index(),
